@@ -728,6 +728,18 @@ def copyto(dst, src, *args, **kwargs):
     # note that np.copyto is heavily used internally
     # in numpy, and it may be used with fundamental datatypes,
     # so we don't attempt to pass ndarray views to keep generality
+    where = args[1] if len(args) > 1 else kwargs.get("where", True)
+    if where is not True and isinstance(dst, unyt_array):
+        # dst keeps some of its elements, hence its units: src is
+        # converted to them (or refused) instead of relabelling dst
+        if isinstance(src, (list, tuple)) and any(
+            isinstance(_, unyt_array) for _ in src
+        ):
+            src = unyt_array(src)
+        if isinstance(src, unyt_array):
+            src = src.to(dst.units)
+        np.copyto._implementation(dst, src, *args, **kwargs)
+        return
     np.copyto._implementation(dst, src, *args, **kwargs)
     if getattr(dst, "units", None) is not None:
         dst.units = getattr(src, "units", dst.units)
